@@ -358,11 +358,33 @@ pub fn run(tier: Tier, replay: Option<&str>) {
                 }
             }
         }
+        // a refused LinkADRReq block, another request, then an accepted block in the same downlink: what the
+        // refused block did to the mask must not leak into what the accepted one commits
+        for (cntl_a, mask_a) in [(0u8, 0x0000u16), (0, 0x00F0), (1, 0x0000), (7, 0x0000)] {
+            for bad_dr in [7u8, 15] {
+                for bad_txp in [15u8, 14] {
+                    if bad_dr == 15 && bad_txp == 15 {
+                        continue;
+                    }
+                    for sep in [vec![0x06u8], vec![0x08, 0x01]] {
+                        for (cntl_b, mask_b) in [(1u8, 0xFFFFu16), (0, 0x00FF), (6, 0x0000)] {
+                            let mut b = cmds::link_adr(bad_dr, bad_txp, mask_a, cntl_a, 1, false).bytes;
+                            b.extend(&sep);
+                            b.extend(cmds::link_adr(15, 15, mask_b, cntl_b, 1, false).bytes);
+                            budget.push(Cmd { name: "refused-block+other+accepted-block".into(), bytes: b });
+                        }
+                    }
+                }
+            }
+        }
         for front in ["nb", "async"] {
             let reduce = front != "nb";
             for otaa in [false, true] {
                 for base in BASES {
-                    if (base == "cflist") != otaa {
+                    // OTAA devices are judged from the state after a join with a CFList; on the fixed plans also after
+                    // a plain join under a join bias (below)
+                    let biased_join = otaa && base == "fresh" && is_fixed(region) && front == "nb";
+                    if (base == "cflist") != otaa && !biased_join {
                         continue;
                     }
                     if base == "extra-channels" && is_fixed(region) {
@@ -371,7 +393,13 @@ pub fn run(tier: Tier, replay: Option<&str>) {
                     if reduce && base != "fresh" {
                         continue;
                     }
-                    let dev = if otaa { DevCfg::otaa(region) } else { DevCfg::abp(region) };
+                  // (fixed plans: also a device that joined under a join bias, which forces data rate and sub-band
+                  // until the network's first LinkADRReq)
+                  let biases: Vec<Option<(u8, usize)>> = if biased_join { vec![Some((2, 4))] } else { vec![None] };
+                  for bias in biases {
+                    let mut dev = if otaa { DevCfg::otaa(region) } else { DevCfg::abp(region) };
+                    dev.bias = bias;
+                    let biased = bias.is_some();
                     let mut cases: Vec<Case> = vec![];
                     let mk = |prior: Vec<Vec<u8>>, cmd: &Cmd, port0: bool, cc: bool| Case {
                         front: front.into(),
@@ -393,7 +421,7 @@ pub fn run(tier: Tier, replay: Option<&str>) {
                             cases.push(mk(vec![], c, true, false));
                         }
                     }
-                    if base == "fresh" {
+                    if base == "fresh" && !biased {
                         for c in &budget {
                             cases.push(mk(vec![], c, true, false));
                         }
@@ -441,6 +469,7 @@ pub fn run(tier: Tier, replay: Option<&str>) {
                         }
                         ctx.tick(1);
                     });
+                  }
                 }
             }
         }
